@@ -31,23 +31,31 @@ Definition new_leak (c : cfg) (st : astate) (dst : nat) (bk : bkind) : list N :=
   end.
 (** what a forgotten handle hides: the element and the tail behind it - after whatever was done through the
     handle before *)
-Fixpoint sink_leak (c : cfg) (nx : N) (xs : list N) (i : nat) (sk : sink) : list N :=
+Fixpoint sink_leak (c : cfg) (st : astate) (nx : N) (v : nat) (a : avec) (i : nat) (sk : sink) : list N :=
   match sk with
-  | KForget => skipn i xs
-  | KMut sk' => sink_leak c (nx + 1) (sp_upd i (tok c nx) xs) i sk'
-  | KLazyDown n sk' => sink_leak c (nx + n) xs i sk'
+  | KForget => skipn i (a_xs a)
+  | KMut sk' => let a' := with_xs a (sp_upd i (tok c nx) (a_xs a)) in sink_leak c (set_a v (Some a') st) (nx + 1) v a' i sk'
+  | KLazyDown n sk' => sink_leak c st (nx + n) v a i sk'
+  | KLazy n dst sk' =>
+      if Nat.eqb dst v then []
+      else match get_a dst st with
+           | None => []
+           | Some b =>
+               let '(b', _, nx', ok) := sp_lazy_pushes c b (nth i (a_xs a) 0) nx (N.to_nat n) in
+               if ok then sink_leak c (set_a dst (Some b') st) nx' v a i sk' else []
+           end
   | _ => []
   end.
 Definition leak_of (c : cfg) (st : astate) (nx : N) (o : op) : list N :=
   match o with
   | OPop _ v k =>
       match get_a v st with
-      | Some a => if (length (a_xs a) =? 0)%nat then [] else sink_leak c nx (a_xs a) (length (a_xs a) - 1) k
+      | Some a => if (length (a_xs a) =? 0)%nat then [] else sink_leak c st nx v a (length (a_xs a) - 1) k
       | None => []
       end
   | ORemove _ v idx k | OSwapRemove _ v idx k =>
       match get_a v st with
-      | Some a => if idx <? N.of_nat (length (a_xs a)) then sink_leak c nx (a_xs a) (N.to_nat idx) k else []
+      | Some a => if idx <? N.of_nat (length (a_xs a)) then sink_leak c st nx v a (N.to_nat idx) k else []
       | None => []
       end
   | ODrain _ v sb eb pat FinForget =>
@@ -390,12 +398,30 @@ Proof.
   intros Hi. unfold sp_upd. rewrite app_length. cbn [length]. rewrite firstn_length, skipn_length. lia.
 Qed.
 
+(** the lazy clones pushed into another vector: new values, all of them in that vector, nothing destroyed *)
+Lemma lazy_pushes_own t : forall n b nx b' evs nx' ok, 1 <= nx ->
+  sp_lazy_pushes c b t nx n = (b', evs, nx', ok) ->
+  exists ids, a_xs b' = a_xs b ++ ids /\ created c nx' = created c nx ++ ids /\ drops evs = [] /\ nx <= nx'.
+Proof.
+  induction n as [|n IH]; intros b nx b' evs nx' ok Hnx H; cbn [sp_lazy_pushes] in H.
+  - injection H as Hb He Hn Ho. subst. exists []. rewrite !app_nil_r. split; [reflexivity|]. split; [reflexivity|]. split; [reflexivity|lia].
+  - destruct (full c b).
+    + injection H as Hb He Hn Ho. subst. exists []. rewrite !app_nil_r. split; [reflexivity|]. split; [reflexivity|]. split; [reflexivity|lia].
+    + destruct (sp_lazy_pushes c (with_xs b (sp_push (tok c nx) (a_xs b))) t (nx + 1) n) as [[[b1 e1] n1] o1] eqn:E.
+      injection H as Hb He Hn Ho. assert (Hnx1 : 1 <= nx + 1) by lia.
+      destruct (IH _ _ _ _ _ _ Hnx1 E) as (ids & H1 & H2 & H3 & H4). subst b' evs nx'.
+      cbn [with_xs a_xs] in H1. unfold sp_push in H1.
+      exists (tok c nx :: ids). split; [rewrite H1, <- app_assoc; reflexivity|]. split.
+      * rewrite H2, (created_succ c nx Hnx), <- app_assoc. reflexivity.
+      * split; [exact H3|lia].
+Qed.
+
 Lemma sink_own : forall sk st nx v a k i r D L,
   get_a v st = Some a -> (i < length (a_xs a))%nat -> (k = TPop -> i = (length (a_xs a) - 1)%nat) -> 1 <= nx ->
   sp_sink c st nx v a k i sk = Some r ->
   Permutation (created c nx) (vis st ++ D ++ L) ->
   Permutation (created c (s_nx r))
-    (vis (s_st r) ++ (D ++ drops (s_evs r)) ++ (L ++ sink_leak c nx (a_xs a) i sk)).
+    (vis (s_st r) ++ (D ++ drops (s_evs r)) ++ (L ++ sink_leak c st nx v a i sk)).
 Proof.
   induction sk as [| |d|d j| |sk' IH|n0 d0 sk' IH|n0 sk' IH|]; intros st nx v a k i r D L Hg Hi Hp Hnx Hr Hinv;
     cbn [sp_sink] in Hr;
@@ -417,6 +443,28 @@ Proof.
     assert (Hp' : k = TPop -> i = (length (a_xs a') - 1)%nat) by (cbn [a' with_xs a_xs]; rewrite sp_upd_len by exact Hi; exact Hp).
     pose proof (IH st' (nx + 1) v a' k i r' (D ++ [t]) L Hg' Hi' Hp' ltac:(lia) Er' Hinv') as H.
     cbn [a' with_xs a_xs] in H. rewrite drops_app. rewrite (drops_drop_ev c t Hdg). perm_count.
+  - (* KLazy *)
+    cbn [sink_leak].
+    destruct (Nat.eqb_spec d0 v) as [|Hne]; [discriminate|].
+    destruct (get_a d0 st) as [b|] eqn:Hgb; [|discriminate].
+    set (t := nth i (a_xs a) 0) in *.
+    destruct (sp_lazy_pushes c b t nx (N.to_nat n0)) as [[[b' evs] nx'] ok] eqn:Esp.
+    destruct (lazy_pushes_own t _ _ _ _ _ _ _ Hnx Esp) as (ids & Hxs & Hcr & Hdr & Hge).
+    set (st1 := set_a d0 (Some b') st) in *.
+    assert (Hg1 : get_a v st1 = Some a).
+    { unfold st1. rewrite WorldCore.get_a_slot. unfold set_a. rewrite WorldCore.slot_set_nth.
+      destruct (Nat.eqb_spec v d0); [congruence|]. rewrite <- WorldCore.get_a_slot. exact Hg. }
+    assert (Hinv1 : Permutation (created c nx') (vis st1 ++ D ++ L)).
+    { rewrite Hcr.
+      pose proof (vis_get_any st d0) as Hv. rewrite Hgb in Hv. cbn [slot_xs] in Hv.
+      pose proof (vis_set_any st d0 (Some b')) as H1. fold st1 in H1. cbn [slot_xs] in H1. rewrite Hxs in H1. perm_count. }
+    destruct ok.
+    + destruct (sp_sink c st1 nx' v a k i sk') as [r'|] eqn:Er'; [|discriminate]. injection Hr as <-.
+      cbn [s_nx s_st s_evs]. rewrite drops_app, Hdr. cbn [app].
+      exact (IH st1 nx' v a k i r' D L Hg1 Hi Hp ltac:(lia) Er' Hinv1).
+    + injection Hr as <-. cbn [panic_res s_nx s_st s_evs]. rewrite drops_app, Hdr. cbn [app].
+      pose proof (take_elem_own st1 nx' v a k i KDrop _ D L Hg1 Hi Hp eq_refl Hinv1) as H.
+      cbn [ok_res s_nx s_st s_evs] in H. exact H.
   - (* KLazyDown *)
     cbv zeta in Hr. cbn [sink_leak].
     set (ids := next_ids c nx (N.to_nat n0)) in *.
@@ -437,8 +485,8 @@ Lemma take_own st nx v k idx sk r D L :
      (L ++ match get_a v st with
            | Some a =>
                match k with
-               | TPop => if (length (a_xs a) =? 0)%nat then [] else sink_leak c nx (a_xs a) (length (a_xs a) - 1) sk
-               | _ => if idx <? N.of_nat (length (a_xs a)) then sink_leak c nx (a_xs a) (N.to_nat idx) sk else []
+               | TPop => if (length (a_xs a) =? 0)%nat then [] else sink_leak c st nx v a (length (a_xs a) - 1) sk
+               | _ => if idx <? N.of_nat (length (a_xs a)) then sink_leak c st nx v a (N.to_nat idx) sk else []
                end
            | None => []
            end)).
@@ -772,8 +820,8 @@ Proof.
   assert (Hl : match get_a src st with
                | Some a =>
                    match k with
-                   | TPop => if (length (a_xs a) =? 0)%nat then [] else sink_leak c nx (a_xs a) (length (a_xs a) - 1) sk
-                   | _ => if sidx' <? N.of_nat (length (a_xs a)) then sink_leak c nx (a_xs a) (N.to_nat sidx') sk else []
+                   | TPop => if (length (a_xs a) =? 0)%nat then [] else sink_leak c st nx src a (length (a_xs a) - 1) sk
+                   | _ => if sidx' <? N.of_nat (length (a_xs a)) then sink_leak c st nx src a (N.to_nat sidx') sk else []
                    end
                | None => []
                end = []).
@@ -897,9 +945,9 @@ Proof.
     assert (Hl : match get_a v st with
                  | Some a =>
                      match k with
-                     | TPop => if (length (a_xs a) =? 0)%nat then [] else sink_leak c nx (a_xs a) (length (a_xs a) - 1) KDrop
+                     | TPop => if (length (a_xs a) =? 0)%nat then [] else sink_leak c st nx v a (length (a_xs a) - 1) KDrop
                      | _ => if match k with TPop => 0 | _ => idx end <? N.of_nat (length (a_xs a))
-                            then sink_leak c nx (a_xs a) (N.to_nat match k with TPop => 0 | _ => idx end) KDrop else []
+                            then sink_leak c st nx v a (N.to_nat match k with TPop => 0 | _ => idx end) KDrop else []
                      end
                  | None => []
                  end = []).
@@ -931,8 +979,8 @@ Proof.
   destruct (get_a v st) as [a|] eqn:Hg; [|unfold sp_take in E0; rewrite Hg in E0; discriminate].
   set (xs := a_xs a) in *. cbv zeta.
   assert (Hl0 : match tk with
-                | TPop => if (length xs =? 0)%nat then [] else sink_leak c nx xs (length xs - 1) KDrop
-                | _ => if idx <? N.of_nat (length xs) then sink_leak c nx xs (N.to_nat idx) KDrop else []
+                | TPop => if (length xs =? 0)%nat then [] else sink_leak c st nx v a (length xs - 1) KDrop
+                | _ => if idx <? N.of_nat (length xs) then sink_leak c st nx v a (N.to_nat idx) KDrop else []
                 end = []).
   { destruct tk; cbn [sink_leak]; repeat match goal with |- context [if ?x then _ else _] => destruct x end; reflexivity. }
   rewrite Hl0 in H0.
